@@ -172,6 +172,19 @@ CHECKS = {
         "the full domain; value laws of log/atan2/elliptic kernels and TriangularMesh validation (see C16) are not decided here.",
         design="3/C12",
     ),
+    "C16": dict(
+        engine="E2",
+        technique="symbolic execution of the real fix_trimesh_orientation / get_inwards_mask / is_facet_inwards / mask_inside_trimesh / "
+        "lines_end_in_trimesh on meshes V = s*V0 + t with symbolic size s in [1e-9,1e9] and placement t; the returned face list is concrete per "
+        "path and checked exactly; the solver decides which paths (sizes/placements) are feasible",
+        text="Bounded symbolic model checking: for rational base meshes (tetrahedron, sliver, prism, cube) under committed face orders and flip "
+        "subsets, every feasible path of the reorientation returns only outward faces for ALL sizes and placements - exactly the fixed "
+        "tolerances named in the property (they were absolute and inverted all faces of small meshes: found, reproduced, fixed).",
+        note="Real arithmetic; orientation normalisation only: check_open / check_disconnected (index combinatorics) and check_selfintersecting "
+        "(float32 + KDTree) are not decided; face orders / flip subsets from a stated finite list; paths whose feasibility the solver cannot "
+        "decide are explored anyway and listed as inconclusive if they return inward faces.",
+        design="3/C16",
+    ),
 }
 
 NOT_APPLICABLE = {
